@@ -20,6 +20,7 @@ struct va_stats {
   uint64_t requests;   /* malloc + realloc calls (the unit of fault schedules) */
   uint64_t mallocs, reallocs, frees, free_null;
   uint64_t refused;    /* requests answered NULL (fault or cap) */
+  uint64_t inplace_reallocs; /* in-place mode: reallocs answered with the same pointer */
   uint64_t cap_refused;
   uint64_t live;       /* live blocks */
   uint64_t live_bytes;
@@ -33,6 +34,7 @@ extern struct va_stats va;
 /* fault schedule: request indices are 0-based over `requests` since va_reset() */
 enum { VA_NOFAULT = 0, VA_FAIL_ONE, VA_FAIL_FROM, VA_FAIL_PAIR };
 void va_schedule(int mode, uint64_t k, uint64_t k2);
+extern int va_inplace; /* 0 realloc always moves (default), 1 / 2 spare capacity: see vf_alloc.c */
 extern uint64_t va_cap; /* refuse any single request larger than this (default 1 GiB) */
 /* optional trace of request sizes (for C20 / growth checks) */
 extern uint64_t va_trace[256];
